@@ -376,13 +376,24 @@ func init() {
 		// that the model side can follow; the huge ones are in the impl-only extra)
 		for _, n := range []int{10001, 20000} {
 			for _, sh := range [][2]string{{"[", "]"}, {`{"a":`, "}"}, {`[{"a":`, "}]"}} {
-				d := nest(sh[0], sh[1], n/len(strings.Split(sh[0], "[")), "1")
+				d := nest(sh[0], sh[1], (n+len(sh[1])-1)/len(sh[1]), "1") // len(close) = levels per repetition
 				e.emit("skip %s nil", hs(d))
 				e.emit("skipfast %s nil", hs(d))
 				e.emit("harr %s - nil", hs(d))
 				e.emit("hobj %s - nil", hs(d))
 				e.emit("harr %s 0,0,0 nil", hs([]byte("["+string(d)+"]")))
 				e.emit("hobj %s 0,0,0 nil", hs([]byte(`{"k":`+string(d)+"}")))
+				for _, op := range []string{"rvc", "rv", "ra", "ro"} {
+					e.emit("%s %s", op, hs(d))
+				}
+			}
+			// the same depths where every level has an earlier sibling container (pooled child readers
+			// are reused along the path): the generic reader must still stop at its depth limit
+			for _, sh := range [][3]string{{"[[],", "]", "1"}, {`{"a":{},"b":`, "}", "1"}, {`[{},{"x":[1],"y":`, "}]", "null"}} {
+				d := nest(sh[0], sh[1], (n+len(sh[1])-1)/len(sh[1]), sh[2])
+				for _, op := range []string{"rvc", "rv", "ra", "ro"} {
+					e.emit("%s %s", op, hs(d))
+				}
 			}
 		}
 		long := strings.Repeat("9", 20000)
